@@ -61,6 +61,79 @@ type world struct {
 	MainMode   string   `json:"mainMode"` // "det": hand the result of Determine to the sync check | "given"
 	Main       *wUtxo   `json:"main"`
 	Malformed  string   `json:"malformed"`
+	// per-call faults: element k of a list = the k-th call of that kind (per function run) fails
+	FaultsDet  wFaults `json:"faultsDet"`
+	FaultsSync wFaults `json:"faultsSync"`
+}
+
+// wFaults scripts the outcome of every chain call by kind and position; calls beyond a list succeed.
+type wFaults struct {
+	Wallet  []bool `json:"wallet,omitempty"`  // BridgeChain.GetWallet
+	History []bool `json:"history,omitempty"` // bitcoin.Chain.GetTxHashesForPublicKeyHash
+	Conf    []bool `json:"conf,omitempty"`    // GetUtxosForPublicKeyHash
+	Mem     []bool `json:"mem,omitempty"`     // GetMempoolUtxosForPublicKeyHash
+	Tx      []bool `json:"tx,omitempty"`      // GetTransaction
+	Dep     []bool `json:"dep,omitempty"`     // BridgeChain.GetDepositRequest
+	Req     []bool `json:"req,omitempty"`     // BridgeChain.GetMovedFundsSweepRequest
+}
+
+func (f wFaults) any() bool {
+	for _, l := range [][]bool{f.Wallet, f.History, f.Conf, f.Mem, f.Tx, f.Dep, f.Req} {
+		for _, b := range l {
+			if b {
+				return true
+			}
+		}
+	}
+	return false
+}
+
+// wCalls counts the chain calls one function run made, by kind.
+type wCalls struct {
+	Wallet, History, Conf, Mem, Tx, Dep, Req int
+}
+
+// faultCtl is shared by the two fake chains: it counts calls and fails the scripted ones.
+type faultCtl struct {
+	script wFaults
+	n      wCalls
+}
+
+func (c *faultCtl) reset(script wFaults) { c.script, c.n = script, wCalls{} }
+func hitAt(l []bool, n *int) bool {
+	k := *n
+	*n = k + 1
+	return k < len(l) && l[k]
+}
+
+// consulted: did one of the calls that were made fail?
+func consulted(f wFaults, n wCalls) bool {
+	chk := func(l []bool, n int) bool {
+		for k := 0; k < n && k < len(l); k++ {
+			if l[k] {
+				return true
+			}
+		}
+		return false
+	}
+	return chk(f.Wallet, n.Wallet) || chk(f.History, n.History) || chk(f.Conf, n.Conf) || chk(f.Mem, n.Mem) ||
+		chk(f.Tx, n.Tx) || chk(f.Dep, n.Dep) || chk(f.Req, n.Req)
+}
+
+func coqBools(l []bool) string {
+	s := make([]string, len(l))
+	for i, b := range l {
+		s[i] = lib.Bool(b)
+	}
+	return lib.List(s)
+}
+func coqScript(f wFaults) string {
+	return fmt.Sprintf("{| f_wallet := %s; f_hist := %s; f_conf := %s; f_mem := %s; f_tx := %s; f_dep := %s; f_req := %s |}",
+		coqBools(f.Wallet), coqBools(f.History), coqBools(f.Conf), coqBools(f.Mem), coqBools(f.Tx), coqBools(f.Dep), coqBools(f.Req))
+}
+func coqCalls(n wCalls) string {
+	return fmt.Sprintf("(Calls %s %s %s %s %s %s %s)", lib.Nat(n.Wallet), lib.Nat(n.History), lib.Nat(n.Conf), lib.Nat(n.Mem),
+		lib.Nat(n.Tx), lib.Nat(n.Dep), lib.Nat(n.Req))
 }
 
 func unhex(s string) []byte {
@@ -114,6 +187,7 @@ type fakeBtc struct {
 	bitcoin.Chain // unimplemented methods panic (nil interface)
 	w             *world
 	txs           map[bitcoin.Hash]*bitcoin.Transaction
+	ctl           *faultCtl
 }
 
 func toUtxos(l []wUtxo) []*bitcoin.UnspentTransactionOutput {
@@ -127,6 +201,9 @@ func toUtxos(l []wUtxo) []*bitcoin.UnspentTransactionOutput {
 	return out
 }
 func (f *fakeBtc) GetTransaction(h bitcoin.Hash) (*bitcoin.Transaction, error) {
+	if hitAt(f.ctl.script.Tx, &f.ctl.n.Tx) {
+		return nil, errFake
+	}
 	t, ok := f.txs[h]
 	if !ok {
 		return nil, errFake
@@ -134,6 +211,9 @@ func (f *fakeBtc) GetTransaction(h bitcoin.Hash) (*bitcoin.Transaction, error) {
 	return t, nil
 }
 func (f *fakeBtc) GetTxHashesForPublicKeyHash(pkh [20]byte) ([]bitcoin.Hash, error) {
+	if hitAt(f.ctl.script.History, &f.ctl.n.History) {
+		return nil, errFake
+	}
 	if f.w.HistoryErr || hex.EncodeToString(pkh[:]) != f.w.PKH {
 		return nil, errFake
 	}
@@ -144,12 +224,18 @@ func (f *fakeBtc) GetTxHashesForPublicKeyHash(pkh [20]byte) ([]bitcoin.Hash, err
 	return out, nil
 }
 func (f *fakeBtc) GetUtxosForPublicKeyHash(pkh [20]byte) ([]*bitcoin.UnspentTransactionOutput, error) {
+	if hitAt(f.ctl.script.Conf, &f.ctl.n.Conf) {
+		return nil, errFake
+	}
 	if f.w.ConfErr || hex.EncodeToString(pkh[:]) != f.w.PKH {
 		return nil, errFake
 	}
 	return toUtxos(f.w.Conf), nil
 }
 func (f *fakeBtc) GetMempoolUtxosForPublicKeyHash(pkh [20]byte) ([]*bitcoin.UnspentTransactionOutput, error) {
+	if hitAt(f.ctl.script.Mem, &f.ctl.n.Mem) {
+		return nil, errFake
+	}
 	if f.w.MemErr || hex.EncodeToString(pkh[:]) != f.w.PKH {
 		return nil, errFake
 	}
@@ -158,10 +244,14 @@ func (f *fakeBtc) GetMempoolUtxosForPublicKeyHash(pkh [20]byte) ([]*bitcoin.Unsp
 
 type fakeBridge struct {
 	tbtc.BridgeChain
-	w *world
+	w   *world
+	ctl *faultCtl
 }
 
 func (f *fakeBridge) GetWallet(pkh [20]byte) (*tbtc.WalletChainData, error) {
+	if hitAt(f.ctl.script.Wallet, &f.ctl.n.Wallet) {
+		return nil, errFake
+	}
 	if f.w.WalletErr || hex.EncodeToString(pkh[:]) != f.w.PKH {
 		return nil, errFake
 	}
@@ -184,6 +274,9 @@ func find(l []wLook, h bitcoin.Hash, idx uint32) string {
 	return ""
 }
 func (f *fakeBridge) GetDepositRequest(h bitcoin.Hash, idx uint32) (*tbtc.DepositChainRequest, bool, error) {
+	if hitAt(f.ctl.script.Dep, &f.ctl.n.Dep) {
+		return nil, false, errFake
+	}
 	switch find(f.w.Deposits, h, idx) {
 	case "found":
 		return &tbtc.DepositChainRequest{Amount: 1}, true, nil
@@ -193,6 +286,9 @@ func (f *fakeBridge) GetDepositRequest(h bitcoin.Hash, idx uint32) (*tbtc.Deposi
 	return nil, false, nil
 }
 func (f *fakeBridge) GetMovedFundsSweepRequest(h bitcoin.Hash, idx uint32) (*tbtc.MovedFundsSweepRequest, bool, error) {
+	if hitAt(f.ctl.script.Req, &f.ctl.n.Req) {
+		return nil, false, errFake
+	}
 	switch find(f.w.Requests, h, idx) {
 	case "found":
 		return &tbtc.MovedFundsSweepRequest{Value: 1}, true, nil
@@ -243,6 +339,9 @@ func classifyDet(u *bitcoin.UnspentTransactionOutput, err error) string {
 		strings.Contains(m, "cannot get transaction with hash"):
 		return "DChainErr"
 	}
+	if strings.Contains(m, "fake chain failure") {
+		return "DChainErr"
+	}
 	return "DPanic" // unclassified error: treated like a crash
 }
 func classifySync(err error) string {
@@ -264,13 +363,21 @@ func classifySync(err error) string {
 		strings.Contains(m, "cannot get moved funds sweep request"):
 		return "SChainErr"
 	}
+	if strings.Contains(m, "fake chain failure") { // an error of ours handed back, whatever the wrapping text
+		return "SChainErr"
+	}
 	return "SPanic"
 }
+
+// lastCalls: the calls the two functions made in the most recent run (the fault generator fails
+// each of them in turn)
+var lastCalls [2]wCalls
 
 func run(w world, em *lib.Emitter, id string) {
 	var pkh [20]byte
 	copy(pkh[:], unhex(w.PKH))
-	btc := &fakeBtc{w: &w, txs: map[bitcoin.Hash]*bitcoin.Transaction{}}
+	ctl := &faultCtl{}
+	btc := &fakeBtc{w: &w, txs: map[bitcoin.Hash]*bitcoin.Transaction{}, ctl: ctl}
 	missing := map[string]bool{}
 	for _, m := range w.Missing {
 		missing[m] = true
@@ -283,7 +390,7 @@ func run(w world, em *lib.Emitter, id string) {
 			btc.txs[h] = built[i]
 		}
 	}
-	bridge := &fakeBridge{w: &w}
+	bridge := &fakeBridge{w: &w, ctl: ctl}
 
 	// ---- the implementation
 	var detU *bitcoin.UnspentTransactionOutput
@@ -295,9 +402,11 @@ func run(w world, em *lib.Emitter, id string) {
 				detKind, detErr = "DPanic", fmt.Errorf("panic: %v", r)
 			}
 		}()
+		ctl.reset(w.FaultsDet)
 		detU, detErr = tbtc.DetermineWalletMainUtxo(pkh, bridge, btc)
 		detKind = classifyDet(detU, detErr)
 	}()
+	nDet := ctl.n
 	var mainArg *bitcoin.UnspentTransactionOutput
 	if w.MainMode == "det" {
 		if detKind == "DUtxo" {
@@ -314,9 +423,12 @@ func run(w world, em *lib.Emitter, id string) {
 				syncKind, syncErr = "SPanic", fmt.Errorf("panic: %v", r)
 			}
 		}()
+		ctl.reset(w.FaultsSync)
 		syncErr = tbtc.EnsureWalletSyncedBetweenChains(pkh, mainArg, bridge, btc)
 		syncKind = classifySync(syncErr)
 	}()
+	nSync := ctl.n
+	lastCalls = [2]wCalls{nDet, nSync}
 
 	// ---- canonicalise
 	ids := &idmap{m: map[string]uint64{}}
@@ -400,11 +512,13 @@ func run(w world, em *lib.Emitter, id string) {
 		syncObs = syncKind + ": " + syncErr.Error()
 	}
 	coq := fmt.Sprintf("{| c_pkh := %s; c_wallet := %s; c_hashes := %s; c_txs := %s; c_hash := %s; "+
-		"c_conf := %s; c_mem := %s; c_dep := %s; c_req := %s; c_main := %s; c_det := %s; c_sync := %s |}",
+		"c_conf := %s; c_mem := %s; c_dep := %s; c_req := %s; c_main := %s; c_det := %s; c_sync := %s; "+
+		"c_fdet := %s; c_fsync := %s; c_ndet := %s; c_nsync := %s |}",
 		lib.Bytes(pkh[:]), coqOpt(lib.N(hid(reg)), !w.WalletErr), coqOpt(lib.List(hist), !w.HistoryErr),
 		lib.List(txTerms), lib.List(hashTerms),
 		coqOpt(utxoList(w.Conf), !w.ConfErr), coqOpt(utxoList(w.Mem), !w.MemErr),
-		lookList(w.Deposits), lookList(w.Requests), mainTerm, detTerm, syncKind)
+		lookList(w.Deposits), lookList(w.Requests), mainTerm, detTerm, syncKind,
+		coqScript(w.FaultsDet), coqScript(w.FaultsSync), coqCalls(nDet), coqCalls(nSync))
 
 	branch := "fresh"
 	if mainArg != nil {
@@ -429,6 +543,15 @@ func run(w world, em *lib.Emitter, id string) {
 	}
 	em.Tally("det-" + detKind)
 	em.Tally("sync-" + branch + "-" + syncKind)
+	scripted := w.FaultsDet.any() || w.FaultsSync.any()
+	hitDet, hitSync := consulted(w.FaultsDet, nDet), consulted(w.FaultsSync, nSync)
+	if scripted {
+		em.Tally(fmt.Sprintf("faults-det-consulted-%v", hitDet))
+		em.Tally(fmt.Sprintf("faults-sync-%s-consulted-%v", branch, hitSync))
+		if hitSync {
+			em.Tally("faults-sync-consulted-" + syncKind)
+		}
+	}
 	em.Tally(fmt.Sprintf("wallet-txs-%d", walletTxs))
 	if w.Malformed != "" {
 		em.Tally("malformed-" + w.Malformed)
@@ -440,9 +563,11 @@ func run(w world, em *lib.Emitter, id string) {
 		Key:        hex.EncodeToString(sum[:12]),
 		Nontrivial: walletTxs >= 2 && (w.Registered != "" || idx0 >= 1),
 		Sig: map[string]interface{}{"det": detKind, "sync": syncKind, "branch": branch,
-			"malformed": w.Malformed != "", "weakHash": w.WeakHash},
-		In:  w,
-		Out: map[string]interface{}{"determine": detObs, "sync": syncObs},
+			"malformed": w.Malformed != "", "weakHash": w.WeakHash, "faults": scripted,
+			"failedConsultedCall": hitDet || hitSync},
+		In: w,
+		Out: map[string]interface{}{"determine": detObs, "sync": syncObs, "callsDetermine": nDet, "callsSync": nSync,
+			"failedConsultedCallDetermine": hitDet, "failedConsultedCallSync": hitSync},
 	})
 }
 
@@ -715,14 +840,97 @@ func main() {
 	for i, w := range corpus() {
 		run(w, em, fmt.Sprintf("corpus-%02d", i))
 	}
+	// --- per-call faults: a base world runs without faults (its case is emitted too), then EVERY
+	// chain call it made is failed in turn (one single-fault script per call), then a fault just
+	// beyond the last call of a kind (not consulted: nothing may change) and a random multi-fault
+	// script. Half of the base worlds are fresh wallets (nothing registered), where the sync check
+	// has to classify outputs through GetTransaction / GetDepositRequest / GetMovedFundsSweepRequest.
+	budget := o.Count(380, 6000)
+	for i, made := 0, 0; made < budget; i++ {
+		r := rng.Fork(fmt.Sprintf("f%d", i))
+		base := genWorld(r, false)
+		if i%2 == 0 {
+			base.Registered, base.MainMode, base.Main = "", "det", nil
+		}
+		run(base, em, fmt.Sprintf("fault-%d-base", i))
+		made++
+		calls := lastCalls
+		single := func(n, k int) []bool {
+			l := make([]bool, k+1)
+			l[k] = true
+			return l
+		}
+		emit := func(w world, label string) {
+			run(w, em, fmt.Sprintf("fault-%d-%s", i, label))
+			made++
+		}
+		type kind struct {
+			name string
+			n    int
+			set  func(f *wFaults, l []bool)
+		}
+		detKinds := []kind{
+			{"wallet", calls[0].Wallet, func(f *wFaults, l []bool) { f.Wallet = l }},
+			{"history", calls[0].History, func(f *wFaults, l []bool) { f.History = l }},
+			{"tx", calls[0].Tx, func(f *wFaults, l []bool) { f.Tx = l }},
+		}
+		syncKinds := []kind{
+			{"conf", calls[1].Conf, func(f *wFaults, l []bool) { f.Conf = l }},
+			{"mem", calls[1].Mem, func(f *wFaults, l []bool) { f.Mem = l }},
+			{"tx", calls[1].Tx, func(f *wFaults, l []bool) { f.Tx = l }},
+			{"dep", calls[1].Dep, func(f *wFaults, l []bool) { f.Dep = l }},
+			{"req", calls[1].Req, func(f *wFaults, l []bool) { f.Req = l }},
+		}
+		for _, k := range syncKinds {
+			for j := 0; j < k.n; j++ {
+				w := base
+				k.set(&w.FaultsSync, single(k.n, j))
+				emit(w, fmt.Sprintf("sync-%s-%d", k.name, j))
+			}
+		}
+		for _, k := range detKinds {
+			for j := 0; j < k.n; j++ {
+				if k.name == "tx" && j > 0 && j < k.n-1 && !r.Chance(1, 3) {
+					continue // history transactions in the middle: a sample
+				}
+				w := base
+				k.set(&w.FaultsDet, single(k.n, j))
+				emit(w, fmt.Sprintf("det-%s-%d", k.name, j))
+			}
+		}
+		{ // not consulted: one position beyond the calls made
+			w := base
+			k := syncKinds[r.Intn(len(syncKinds))]
+			k.set(&w.FaultsSync, single(k.n+1, k.n))
+			k2 := detKinds[r.Intn(len(detKinds))]
+			k2.set(&w.FaultsDet, single(k2.n+1, k2.n))
+			emit(w, "beyond")
+		}
+		{ // random script over both functions
+			w := base
+			rl := func(n int) []bool {
+				l := make([]bool, r.Range(0, n+1))
+				for j := range l {
+					l[j] = r.Chance(1, 4)
+				}
+				return l
+			}
+			w.FaultsSync = wFaults{Conf: rl(1), Mem: rl(1), Tx: rl(calls[1].Tx), Dep: rl(calls[1].Dep), Req: rl(calls[1].Req)}
+			if r.Bool() {
+				w.FaultsDet = wFaults{Wallet: rl(1), History: rl(1), Tx: rl(calls[0].Tx)}
+			}
+			emit(w, "script")
+		}
+	}
+
 	// --- structured random worlds (1 in 8 with an injected chain failure)
-	n := o.Count(800, 12000)
+	n := o.Count(560, 12000)
 	for i := 0; i < n; i++ {
 		r := rng.Fork(fmt.Sprintf("w%d", i))
 		run(genWorld(r, i%8 == 7), em, fmt.Sprintf("rand-%d", i))
 	}
 	em.Close("a case is one wallet world (transaction history, UTXO sets, registered main-UTXO hash, bridge "+
-		"lookups) on which DetermineWalletMainUtxo and then EnsureWalletSyncedBetweenChains are run; distinct by the "+
+		"lookups, and a script saying which chain call of which kind fails at which position) on which DetermineWalletMainUtxo and then EnsureWalletSyncedBetweenChains are run; distinct by the "+
 		"canonical case term; non-trivial when >= 2 transactions pay the wallet and either a main UTXO is registered "+
 		"or the UTXO sets contain an output-0 UTXO", nil)
 }
@@ -795,6 +1003,52 @@ func corpus() []world {
 	w.Txs, w.History = []wTx{sweep}, []string{th(sweep)}
 	w.Conf = []wUtxo{{th(sweep), 0, 5000}}
 	w.MainMode, w.Main = "given", &wUtxo{th(sweep), 0, 5001}
+	ws = append(ws, w)
+	// ---- per-call faults
+	// fresh wallet whose own deposit sweep is unspent; the deposit lookup of its first input
+	// FAILS (the moved-funds lookup would answer "not found"): the check must not pass
+	fresh := base
+	fresh.Txs, fresh.History = []wTx{spam, sweep}, []string{th(spam), th(sweep)}
+	fresh.Conf = []wUtxo{{th(spam), 1, 5000}, {th(sweep), 0, 5000}}
+	w = fresh
+	w.FaultsSync = wFaults{Dep: []bool{true}}
+	ws = append(ws, w)
+	// same wallet, the failure hits the transaction fetch / the moved-funds lookup of a spam output
+	w = fresh
+	w.Conf = []wUtxo{{th(spam), 0, 5000}, {th(sweep), 0, 5000}}
+	w.FaultsSync = wFaults{Tx: []bool{false, true}}
+	ws = append(ws, w)
+	w.FaultsSync = wFaults{Req: []bool{true}}
+	ws = append(ws, w)
+	w.FaultsSync = wFaults{Dep: []bool{true}} // spam output's deposit lookup fails: cannot be classified
+	ws = append(ws, w)
+	// only spam: a failed deposit lookup still forbids a pass; a failure scripted for a call that is
+	// never made changes nothing
+	w = fresh
+	w.Txs, w.History = []wTx{spam}, []string{th(spam)}
+	w.Conf = []wUtxo{{th(spam), 0, 5000}, {th(spam), 1, 5000}}
+	w.FaultsSync = wFaults{Dep: []bool{true}}
+	ws = append(ws, w)
+	w.FaultsSync = wFaults{Dep: []bool{false, true}, Req: []bool{false, true}, Tx: []bool{false, true}}
+	ws = append(ws, w)
+	w.FaultsSync = wFaults{Mem: []bool{true}}
+	ws = append(ws, w)
+	// with a main UTXO the mempool / lookups are not consulted: their failures are irrelevant
+	w = base
+	w.Txs, w.History = []wTx{sweep, spam}, []string{th(sweep), th(spam)}
+	w.Registered = regOf(sweep, 0, false)
+	w.Conf = []wUtxo{{th(sweep), 0, 5000}, {th(spam), 0, 5000}}
+	w.FaultsSync = wFaults{Mem: []bool{true}, Tx: []bool{true}, Dep: []bool{true}, Req: []bool{true}}
+	ws = append(ws, w)
+	w.FaultsSync = wFaults{Conf: []bool{true}}
+	ws = append(ws, w)
+	// Determine: the newest transaction cannot be fetched / the wallet data cannot be read
+	w.FaultsSync = wFaults{}
+	w.FaultsDet = wFaults{Tx: []bool{true}}
+	ws = append(ws, w)
+	w.FaultsDet = wFaults{Tx: []bool{false, false, true}, History: []bool{false, true}} // never consulted
+	ws = append(ws, w)
+	w.FaultsDet = wFaults{Wallet: []bool{true}}
 	ws = append(ws, w)
 	return ws
 }
